@@ -523,20 +523,48 @@ Theorem select_text_plan :
 Proof. exact plan_stmt_text_inv. Qed.
 Print Assumptions select_text_plan.
 
-(* the front end of the text twin is Model/ParseCheck.v parse_check up to its plan stage (which
-   PipelineS redoes on the FOLDED fields, as buildFinalPlan sees them), for every statement the
-   checker twin of ParseCheck takes; beyond it (GROUP BY together with a field name inside a select
-   field: to_check = None) the text twin applies the same checker to the same trees (to_check_s) *)
+(* Model/ParseCheck.v parse_check (C17's composite twin of BuildPlan's accept / reject decision)
+   IS the front end of the text twin followed by the folder on the select fields and the tests of
+   buildFinalPlan on the FOLDED fields -- the same two things plan_of_front does with the result
+   of front_s.  For every text front_s accepts (GROUP BY together with a field name inside a
+   select field included: ParseCheck.to_check takes every statement the parser returns): *)
 Theorem select_text_front_is_parse_check :
-  forall (fo : fops) (q : string) (x : StmtParser.select_t) (fields : list (string * expr)) (w : expr),
+  forall (fo : fops) (re : bytes -> bytes -> res bool) (fmt_v : F fo -> string)
+         (q : string) (x : StmtParser.select_t) (fields : list (string * expr)) (w : expr),
   front_s fo q = STOk (x, fields, w) ->
-  ParseCheck.to_check (StmtParser.StSelect x) = None \/
-  (exists b, ParseCheck.parse_check fo q =
-               ParseCheck.PCOk (StmtParser.StSelect x)
-                 (Checker.SSelect fields w (ParseCheck.order_items (StmtParser.s_order x))) b) \/
-  (exists z, ParseCheck.parse_check fo q = ParseCheck.PCErr ParseCheck.KPlan z).
-Proof. exact front_s_parse_check. Qed.
+  ParseCheck.parse_check fo re fmt_v q =
+  let c := Checker.SSelect fields w (ParseCheck.order_items (StmtParser.s_order x)) in
+  if existsb (fun nf => fold_oom fo re fmt_v (snd nf)) fields then ParseCheck.PCOutOfModel
+  else match ParseCheck.plan_select x (map (fun nf => (fst nf, exec_of fo re fmt_v (snd nf))) fields) with
+       | ParseCheck.PlErr z => ParseCheck.PCErr ParseCheck.KPlan z
+       | ParseCheck.PlProjection => ParseCheck.PCOk (StmtParser.StSelect x) c false
+       | ParseCheck.PlAggregate => ParseCheck.PCOk (StmtParser.StSelect x) c true
+       end.
+Proof. exact front_s_parse_check_unfolded. Qed.
 Print Assumptions select_text_front_is_parse_check.
+
+(* a rejection of the front end is a rejection of parse_check at the same position, ahead of its
+   plan stage *)
+Theorem select_text_front_reject_is_parse_check :
+  forall (fo : fops) (re : bytes -> bytes -> res bool) (fmt_v : F fo -> string) (q : string) (z : Z),
+  front_s fo q = STReject z ->
+  exists k, k <> ParseCheck.KPlan /\ ParseCheck.parse_check fo re fmt_v q = ParseCheck.PCErr k z.
+Proof. exact front_s_reject_parse_check. Qed.
+Print Assumptions select_text_front_reject_is_parse_check.
+
+(* the two text twins accept the same texts with the same trees: what plan_stmt_text plans,
+   parse_check accepts -- the parser's statement, the checked fields and WHERE tree, and whether
+   buildFinalPlan builds an AggregatePlan *)
+Theorem select_text_plan_is_parse_check :
+  forall (fo : fops) (re : bytes -> bytes -> res bool) (fmt_v : F fo -> string) (q : string) (pl : splanned fo),
+  plan_stmt_text fo re fmt_v q = STOk pl ->
+  ParseCheck.parse_check fo re fmt_v q =
+  ParseCheck.PCOk (StmtParser.StSelect (sp_select fo pl))
+    (Checker.SSelect (sp_fields fo pl) (sp_where fo pl)
+                     (ParseCheck.order_items (StmtParser.s_order (sp_select fo pl))))
+    (is_agg fo pl).
+Proof. exact plan_stmt_text_parse_check. Qed.
+Print Assumptions select_text_plan_is_parse_check.
 
 (* C03 FROM THE TEXT: a batch drain of the text that completes => the row drain of the same text
    completes with the same rows in the same order (up to string / []byte), every B >= 1, every
